@@ -19,9 +19,12 @@ pub struct ExIoErrorKind(std::io::ErrorKind);
 
 /// abstract content of a BytesMut
 pub uninterp spec fn bm_view(b: &BytesMut) -> Seq<u8>;
-pub uninterp spec fn arc_str_view(a: std::sync::Arc<str>) -> Seq<char>;
-pub uninterp spec fn box_str_view(a: Box<str>) -> Seq<char>;
+/// text of an `Arc<str>` / `Box<str>` (Verus sees through the smart pointer)
+pub open spec fn arc_str_view(a: std::sync::Arc<str>) -> Seq<char> { (*a)@ }
+pub open spec fn box_str_view(a: Box<str>) -> Seq<char> { (*a)@ }
 
+pub assume_specification<'a> [<Box<str> as From<&'a str>>::from] (s: &str) -> (r: Box<str>)
+    ensures box_str_view(r) == s@;
 pub assume_specification<T> [std::mem::replace] (dest: &mut T, src: T) -> (r: T)
     ensures r == *old(dest), *final(dest) == src;
 
@@ -105,10 +108,14 @@ pub trait ExWrite {
     fn flush(&mut self) -> (r: std::io::Result<()>);
 }
 
-/// ghost log of bytes (N15 ghost field); erased at run time
-pub struct GhostLog(pub Ghost<Seq<u8>>);
+/// ghost receive log (N15 ghost field; erased at run time): .0 = every byte a read ever delivered into the receive
+/// buffer, .1 = "a read delivered 0 bytes into a non-empty window" (end of stream observed)
+pub struct GhostLog(pub Ghost<Seq<u8>>, pub Ghost<bool>);
 impl std::fmt::Debug for GhostLog { #[verifier::external_body] fn fmt(&self, f: &mut std::fmt::Formatter<'_>) -> std::fmt::Result { Ok(()) } }
-impl GhostLog { pub fn empty() -> (r: GhostLog) ensures r.0@ == Seq::<u8>::empty() { GhostLog(Ghost(Seq::empty())) } }
+impl GhostLog {
+    pub fn empty() -> (r: GhostLog) ensures r.0@ == Seq::<u8>::empty(), r.1@ == false { GhostLog(Ghost(Seq::empty()), Ghost(false)) }
+    pub fn of(rx: Ghost<Seq<u8>>, eof: Ghost<bool>) -> (r: GhostLog) ensures r.0@ == rx@, r.1@ == eof@ { GhostLog(rx, eof) }
+}
 
 pub broadcast proof fn lemma_sub_sub(s: Seq<u8>, a: int, b: int, c: int, d: int)
     requires 0 <= a <= b <= s.len(), 0 <= c <= d <= b - a
